@@ -16,7 +16,8 @@ import (
 
 // Elem is one abstract element: a small integer, a boolean, or an extended record.
 type Elem struct {
-	Kind string // "int", "bool", "rec"
+	Kind string // "int", "bool", "rec", "bytes" (little-endian image of the element)
+	Raw  []byte
 	I    int64
 	B    bool
 	C    string // record class: fin nz max nmax pinf ninf nan sym raw
@@ -29,6 +30,12 @@ func (e Elem) MarshalJSON() ([]byte, error) {
 		return json.Marshal(e.I)
 	case "bool":
 		return json.Marshal(e.B)
+	case "bytes":
+		bs := make([]int, len(e.Raw))
+		for i, v := range e.Raw {
+			bs[i] = int(v)
+		}
+		return json.Marshal(bs)
 	default:
 		return json.Marshal(map[string]interface{}{"c": e.C, "n": e.N, "d": e.D})
 	}
@@ -39,6 +46,17 @@ func (e *Elem) UnmarshalJSON(b []byte) error {
 	switch {
 	case s == "true" || s == "false":
 		e.Kind, e.B = "bool", s == "true"
+		return nil
+	case strings.HasPrefix(s, "["):
+		var bs []int
+		if err := json.Unmarshal(b, &bs); err != nil {
+			return err
+		}
+		e.Kind = "bytes"
+		e.Raw = make([]byte, len(bs))
+		for i, v := range bs {
+			e.Raw[i] = byte(v)
+		}
 		return nil
 	case strings.HasPrefix(s, "{"):
 		var r struct {
@@ -244,6 +262,9 @@ func f32FromOrd(o int32) float32 {
 
 // Concretize returns the Go value of element e in dtype dt.
 func Concretize(dt string, e Elem) (interface{}, error) {
+	if e.Kind == "bytes" {
+		return fromLEBytes(dt, e.Raw)
+	}
 	switch dt {
 	case "f32":
 		f, err := floatOf(e, true)
@@ -654,6 +675,17 @@ func sameValue(got, want interface{}, mode string) bool {
 		fmt.Sscanf(mode, "ulp:%d", &k)
 		return withinUlps(got, want, int64(k))
 	}
+	if mode == "rawbits" {
+		switch w := want.(type) {
+		case float32:
+			g, ok := got.(float32)
+			return ok && math.Float32bits(g) == math.Float32bits(w)
+		case float64:
+			g, ok := got.(float64)
+			return ok && math.Float64bits(g) == math.Float64bits(w)
+		}
+		return got == want
+	}
 	switch w := want.(type) {
 	case float32:
 		g, ok := got.(float32)
@@ -838,4 +870,37 @@ func withinUlps(got, want interface{}, k int64) bool {
 		d = -d
 	}
 	return d <= k
+}
+
+// fromLEBytes interprets the little-endian image of one element.
+func fromLEBytes(dt string, b []byte) (interface{}, error) {
+	var u uint64
+	for i := len(b) - 1; i >= 0; i-- {
+		u = u<<8 | uint64(b[i])
+	}
+	switch dt {
+	case "f32":
+		return math.Float32frombits(uint32(u)), nil
+	case "f64":
+		return math.Float64frombits(u), nil
+	case "i8":
+		return int8(u), nil
+	case "i16":
+		return int16(u), nil
+	case "i32":
+		return int32(u), nil
+	case "i64":
+		return int64(u), nil
+	case "u8":
+		return uint8(u), nil
+	case "u16":
+		return uint16(u), nil
+	case "u32":
+		return uint32(u), nil
+	case "u64":
+		return u, nil
+	case "bool":
+		return u != 0, nil
+	}
+	return nil, fmt.Errorf("no byte image for dtype %s", dt)
 }
